@@ -1993,6 +1993,10 @@ where
                 .write_sequence(self.into_tokens())
                 .context(PrintDataSetSnafu)?;
 
+            // flush the adapter so that failures of the underlying writer
+            // are reported instead of being lost when the adapter is dropped
+            dset_writer.flush().context(PrintDataSetSnafu)?;
+
             Ok(())
         } else {
             // prepare data set writer
@@ -2036,6 +2040,10 @@ where
             dset_writer
                 .write_sequence(self.into_tokens_with_options(required_options))
                 .context(PrintDataSetSnafu)?;
+
+            // flush the adapter so that failures of the underlying writer
+            // are reported instead of being lost when the adapter is dropped
+            dset_writer.flush().context(PrintDataSetSnafu)?;
 
             Ok(())
         } else {
